@@ -1,8 +1,8 @@
 ---------------------------- MODULE Annot ----------------------------
 (***************************************************************************)
 (* Annotation consistency (property C15).  A fixed call graph              *)
-(*     caller(a, b)  ->  callee(x <- a, y <- b)  ->  leaf(d <- y[0:n], s <- t[0:n])   *)
-(*     callee:  t : alloc ;  t[i] = x[i] + y[i]          leaf:  d[i] = s[i] *)
+(*     caller(a, b)  ->  callee(x <- a, y <- b)  ->  leaf(d <- y[0:n], s <- t[0:n], r <- c)   *)
+(*     callee:  t : alloc ; c : scalar alloc ; t[i] = x[i] + y[i]   leaf:  d[i] = s[i] * r  *)
 (* and every assignment of precision, memory and window-ness reachable     *)
 (* with set_precision / set_memory / set_window.  Consistent transcribes   *)
 (* the rules the backend documents:                                        *)
@@ -20,7 +20,8 @@
 (***************************************************************************)
 EXTENDS Integers, Sequences, FiniteSets, TLC, Json
 
-Bufs == {"a", "b", "x", "y", "t", "d", "s"}
+Bufs == {"a", "b", "x", "y", "t", "d", "s", "c", "r"}   \* c: scalar allocated in callee, r: scalar parameter of leaf
+Scalars == {"c", "r"}
 Precs == {"f32", "f64", "i8"}
 Mems == {"DRAM", "STACK", "NOACC"}        \* STACK is a subclass of DRAM; NOACC allows no direct access
 Winable == {"a", "b", "x", "y"}           \* tensor arguments that set_window can turn into windows
@@ -37,19 +38,19 @@ Diff(f, g) == Cardinality({u \in DOMAIN f : f[u] # g[u]})
 Init ==
   /\ alias \in BOOLEAN
   /\ \/ prec \in [Bufs -> Precs] /\ mem = DefMem /\ win = DefWin
-     \/ prec = DefPrec /\ mem \in [Bufs -> Mems] /\ win = DefWin
+     \/ prec = DefPrec /\ mem \in {m \in [Bufs -> Mems] : \A u \in Scalars : m[u] = "DRAM"} /\ win = DefWin
      \/ prec = DefPrec /\ mem = DefMem /\ win \in [Winable -> BOOLEAN]
      \/ /\ prec \in {p \in [Bufs -> Precs] : Diff(p, DefPrec) <= 1}
-        /\ mem \in {m \in [Bufs -> Mems] : Diff(m, DefMem) <= 1}
+        /\ mem \in {m \in [Bufs -> Mems] : Diff(m, DefMem) <= 1 /\ \A u \in Scalars : m[u] = "DRAM"}
         /\ win \in [Winable -> BOOLEAN]
 Next == UNCHANGED vars
 Spec == Init /\ [][Next]_vars
 
 MemSub(m1, m2) == m1 = m2 \/ (m1 = "STACK" /\ m2 = "DRAM")
-Calls == { <<"a", "x">>, <<"b", "y">>, <<"y", "d">>, <<"t", "s">> }     \* <<actual, formal>>
+Calls == { <<"a", "x">>, <<"b", "y">>, <<"y", "d">>, <<"t", "s">>, <<"c", "r">> }     \* <<actual, formal>>
 Direct == {"x", "y", "t", "d", "s"}                                     \* accessed with [] in a compiled body
 
-P1 == prec["x"] = prec["y"]
+P1 == prec["x"] = prec["y"] /\ prec["s"] = prec["r"]
 P2 == \A c \in Calls : prec[c[1]] = prec[c[2]]
 M1 == \A c \in Calls : MemSub(mem[c[1]], mem[c[2]])
 M2 == \A u \in Direct : mem[u] # "NOACC"
